@@ -46,6 +46,7 @@ class _OldRewriter(ast.NodeTransformer):
 
 def native_ns(extra: dict[str, Any] | None = None) -> dict[str, Any]:
 	ns: dict[str, Any] = {'implies': implies, 'init': init, 'last': last}
+	ns.update(REG.consts)
 	for name, sp in REG.specs.items():
 		ns[name] = sp.fn
 	for name, lm in REG.lemmas.items():
@@ -95,7 +96,14 @@ def check_native(c: Contract, inputs: dict[str, Any], call: Callable[..., Any] |
 				return NativeOutcome('pre-false', f'requires not satisfied: {r}')
 	except Exception as e:
 		return NativeOutcome('pre-false', f'requires not evaluable: {type(e).__name__}: {e}')
+	try:
+		for k, expr in c.lets.items():
+			ns[k] = eval_clause(expr, ns)
+	except Exception as e:
+		return NativeOutcome('pre-false', f'let not evaluable: {type(e).__name__}: {e}')
 	old_ns = native_ns({**c.consts, **copy.deepcopy(dict(inputs))})
+	for k in c.lets:
+		old_ns[k] = ns[k]
 	fn = call or import_real(c.file, c.qualname)
 	src = source.load(c.file).funcs[c.qualname]
 	argnames = [a.arg for a in src.node.args.posonlyargs + src.node.args.args]
@@ -123,7 +131,7 @@ def check_native(c: Contract, inputs: dict[str, Any], call: Callable[..., Any] |
 		for e_name, cond in exact.items():
 			if eval_clause(cond, old_ns):
 				return NativeOutcome('violated', f'returned normally although {e_name} is required when {cond}', f'raises-iff:{e_name}', repr(result))
-		for cl in c.ensures:
+		for cl in c.ensures + c.bounded_ensures:
 			if not eval_clause(cl, ns, old_ns):
 				return NativeOutcome('violated', f'postcondition false: {cl}', cl, repr(result))
 	except Exception as e:
